@@ -14,15 +14,19 @@ RULE = ("a case = a history of operations on a fresh OrdinalInstance plus a regr
         "operation, and the final observables of the two twins are compared with each other. exhaustive: all histories "
         "of <= 2 operations (thorough: + all histories of 3 operations over a reduced operation universe) over "
         "alternatives {1,2}; random: histories of 1-8 operations over <= 6 alternatives with arbitrary ids, repeated "
-        "votes, weak / incomplete votes, numpy arrays, populate_* with captured sampler output. "
+        "votes, weak / incomplete votes, numpy arrays, populate_* with the sampler's raw rows captured (the model applies its own mirror of "
+        "prefsampling_ordinal_wrapper: op c02.wrapper compared as a dict, and the run on AppendVoteMap(wrapper rows)). "
         "non-trivial = the history uses >= 2 different entry points and some vote is added more than once")
 EXHAUSTIVE = {"quick": "all histories of <= 2 operations over the 73-operation universe on alternatives {1,2}",
               "thorough": "all histories of <= 2 operations over the 73-operation universe on alternatives {1,2}; all "
                           "histories of 3 operations over a 29-operation sub-universe"}
 TRUSTED = ["modelled (mirror): OrdinalInstance.append_order / append_order_array / append_order_list / append_vote_map "
            "/ infer_type / vote_map / full_profile / flatten_strict, basic.py statistics, sanity.orders; "
-           "populate_* is replayed as append_vote_map of the vote map captured from the wrapped sampler "
-           "(prefsampling itself is outside the model: any map of well-formed votes is covered by C02_reachable)",
+           "populate_* : sampling.prefsampling_ordinal_wrapper is mirrored (Model wrapper, C02_wrapper, "
+           "C02_populate_rows); the raw rows returned by prefsampling are captured by wrapping the wrapper's "
+           "`sampler` argument and replayed through the model as AppendVoteMap (wrapper rows). prefsampling itself "
+           "(which rows are drawn) and the parameter preparation in generate_* are outside the model: any list of "
+           "non-empty duplicate-free rankings is covered by C02_populate_rows",
            "iteration order of the Python set of alternatives in append_order_array / append_order_list is not "
            "modelled: alternatives_name is compared as a set of (id, name) pairs",
            "numpy: conversion of array entries to dict keys / str() of numpy integers in append_order_array"]
@@ -38,7 +42,7 @@ THEOREMS_FOR_OP = {"c02.history": "C02_reachable, C02_views, C02_type, C02_sanit
 CHUNK = 25
 
 DT = {"soc": 0, "soi": 1, "toc": 2, "toi": 3, None: 4}
-K_ORDER, K_ARRAY, K_LIST, K_VM, K_POP, K_BARE = 0, 1, 2, 3, 4, 5
+K_ORDER, K_ARRAY, K_LIST, K_VM, K_POP, K_BARE, K_ROWS = 0, 1, 2, 3, 4, 5, 6
 
 
 # ---------------------------------------------------------------------------------------------
@@ -53,6 +57,8 @@ def votes_of_op(op):
         return [o for o in d]
     if k == K_VM:
         return [o for o, m in d for _ in range(m)]
+    if k == K_ROWS:
+        return [[[a] for a in row] for row in d]
     raise ValueError(k)
 
 
@@ -294,7 +300,7 @@ def generate(tier, seed):
             j += b
         out.append(mk_case(hh, rng.randrange(10 ** 9), rnd=1, mode="vote-maps-only"))
     # populate_* (the sampler's vote map is captured on the implementation side)
-    npop = 60 if tier == "quick" else 600
+    npop = 150 if tier == "quick" else 1000
     for i in range(npop):
         h = []
         for _ in range(rng.randint(1, 3)):
@@ -366,11 +372,13 @@ def observe(inst, raised):
 
 
 class _Capture:
-    """wraps ordinal.generate_* (the names append through which populate_* obtains its vote map)"""
+    """wraps ordinal.generate_* (the names through which populate_* obtains its vote map) and
+    sampling.prefsampling_ordinal_wrapper (to see the sampler's raw rows and the vote map made of them)"""
 
     def __init__(self, seed):
         self.seed = seed
         self.vm = None
+        self.calls = []          # [rows, vote map returned by the wrapper] per wrapper call
 
     def __enter__(self):
         import numpy as np
@@ -396,16 +404,36 @@ class _Capture:
             return g
         for n, f in self.saved.items():
             setattr(ordinal, n, wrap(f))
+        from preflibtools.instances import sampling
+        self.sampling = sampling
+        self.saved_wrapper = getattr(sampling, "prefsampling_ordinal_wrapper", None)
+        if self.saved_wrapper is not None:
+            orig = self.saved_wrapper
+
+            def patched(sampler, sampler_params):
+                box = {}
+
+                def s2(**kw):
+                    r = sampler(**kw)
+                    box["rows"] = [[int(a) for a in row] for row in r]
+                    return r
+                vm = orig(s2, sampler_params)
+                if "rows" in box:
+                    self.calls.append([box["rows"], [[[list(c) for c in o], int(k)] for o, k in vm.items()]])
+                return vm
+            sampling.prefsampling_ordinal_wrapper = patched
         return self
 
     def __exit__(self, *exc):
         for n, f in self.saved.items():
             setattr(self.ordinal, n, f)
         self.np.random.default_rng = self.saved_rng
+        if self.saved_wrapper is not None:
+            self.sampling.prefsampling_ordinal_wrapper = self.saved_wrapper
         return False
 
 
-def apply_op(inst, op, variant):
+def apply_op(inst, op, variant, sink=None):
     """returns the resolved operation (populate -> the captured vote map; bare list -> list of orders)"""
     import numpy as np
     k, d = op
@@ -444,7 +472,13 @@ def apply_op(inst, op, variant):
                 inst.populate_IC_anon(nv, na)
         if cap.vm is None:
             raise RuntimeError("populate_* did not go through ordinal.generate_*")
-        return [K_VM, cap.vm]
+        if cap.calls:
+            # the sampler's raw rows were seen: the model runs its own wrapper on the rows of the last call
+            # (generate_mallows_mix also draws its reference rankings through the wrapper)
+            if sink is not None:
+                sink.extend(cap.calls)
+            return [K_ROWS, cap.calls[-1][0]]
+        return [K_VM, cap.vm]        # wrapper not reachable under that name: fall back to the handed vote map
     if k == K_BARE:
         inst.append_order_list([tuple(c[0] for c in o) for o in d])
         return [K_LIST, d]
@@ -457,9 +491,10 @@ def replay(h, seed):
     obs = [observe(inst, False)]
     resolved = []
     bare_raised = False
+    wrap_calls = []
     for i, op in enumerate(h):
         try:
-            r = apply_op(inst, op, seed + i)
+            r = apply_op(inst, op, seed + i, wrap_calls)
         except TypeError:
             if op[0] == K_BARE:
                 bare_raised = True        # not claimed by the property: the history ends here
@@ -467,22 +502,23 @@ def replay(h, seed):
             raise
         resolved.append(r)
         obs.append(observe(inst, False))
-    return resolved, obs, bare_raised
+    return resolved, obs, bare_raised, wrap_calls
 
 
 def impl(c):
     h, twin, seed = c["payload"]
-    rh, obs_h, bare = replay(h, seed)
+    rh, obs_h, bare, wrap_calls = replay(h, seed)
     if c["tags"].get("pop"):
         twin = regroup(votes_of(rh), random.Random(seed * 7919 + 13), nonempty=bool(rh))
-    rt, obs_t, _ = replay(twin, seed + 101)
-    return {"H": proto.norm(rh), "T": proto.norm(rt), "obsH": obs_h, "obsT": obs_t, "bare_raised": bare}
+    rt, obs_t, _, _ = replay(twin, seed + 101)
+    return {"H": proto.norm(rh), "T": proto.norm(rt), "obsH": obs_h, "obsT": obs_t, "bare_raised": bare,
+            "wrap": proto.norm(wrap_calls)}
 
 
 def oracle_requests(c, r):
     if not isinstance(r, dict) or "H" not in r:
         return [("c02.history", c["payload"][0]), ("c02.history", c["payload"][1])]
-    return [("c02.history", r["H"]), ("c02.history", r["T"])]
+    return [("c02.history", r["H"]), ("c02.history", r["T"])] + [("c02.wrapper", rows) for rows, _ in r.get("wrap", [])]
 
 
 # ---------------------------------------------------------------------------------------------
@@ -522,6 +558,12 @@ FINAL = [0, 1, 2, 3, 4, 5, 6, 7]
 
 
 def judge(c, r, mres):
+    # prefsampling_ordinal_wrapper: rows -> vote map, compared as a dict with the model's wrapper (C02_wrapper)
+    for i, (rows, vm) in enumerate(r.get("wrap", [])):
+        if sorted(vm) != sorted(mres[2 + i]):
+            return {"kind": "mismatch", "theorem": "C02_wrapper / C02_populate_rows",
+                    "reason": "prefsampling_ordinal_wrapper on rows %r: implementation %r, model %r"
+                              % (rows, vm, mres[2 + i])}
     for who, obs, m in (("history", r["obsH"], mres[0]), ("twin", r["obsT"], mres[1])):
         if len(obs) != len(m):
             return "%s: %d observations from the implementation, %d from the model" % (who, len(obs), len(m))
@@ -573,7 +615,7 @@ def stats(c, r, m):
             fw = weak.index(True)
             if inc[fw] and sum(inc) == 1:
                 out.append("corner: first weak order is incomplete and the only incomplete order (toi expected)")
-    if h and all(op[0] == K_VM for op in h):
+    if h and all(op[0] in (K_VM, K_ROWS) for op in h):
         out.append("corner: instance populated through vote maps only" +
                    (" (populate_*)" if any(op[0] == K_POP for op in c["payload"][0]) else ""))
     seen = set()
@@ -585,6 +627,12 @@ def stats(c, r, m):
         seen.update(ovs)
     if bump:
         out.append("corner: some operation only raises multiplicities of existing orders")
+    if r.get("wrap"):
+        out.append("populate: raw sampler rows captured, wrapper compared (c02.wrapper)")
+        if any(len(set(map(tuple, rows))) < len(rows) for rows, _ in r["wrap"]):
+            out.append("populate: sampler rows contain a repeated ranking")
+    elif any(op[0] == K_POP for op in c["payload"][0]):
+        out.append("populate: raw rows NOT captured (fallback: handed vote map)")
     if r.get("bare_raised"):
         out.append("append_order_list with bare alternatives raised TypeError (history truncated there)")
     for op in c["payload"][0]:
@@ -595,7 +643,8 @@ def stats(c, r, m):
 
 def describe(c):
     kn = {0: "append_order", 1: "append_order_array", 2: "append_order_list", 3: "append_vote_map",
-          4: "populate(which,nv,na,param,seed)", 5: "append_order_list(bare alternatives)"}
+          4: "populate(which,nv,na,param,seed)", 5: "append_order_list(bare alternatives)",
+          6: "populate_X = append_vote_map(wrapper(sampler rows))"}
     return {"history": [[kn[k], d] for k, d in c["payload"][0]],
             "twin": [[kn[k], d] for k, d in c["payload"][1]]}
 
